@@ -1,9 +1,9 @@
 #!/bin/bash
-# import_seed.sh <Cxx> <A|B>: validate an agent-written seeded change in its scratch worktree /tmp/seed/<Cxx> and keep it
+# import_seed.sh <Cxx> <A|B> [basedir] [suffix]: validate an agent-written seeded change in its scratch worktree /tmp/seed/<Cxx> and keep it
 # as /verif/seeded/<Cxx>-<X>/ (patch.diff, demo_test.go, meta.json).  Validation: compiles, whole suite passes,
 # the demonstration fails on the changed code and passes on the unchanged code.
 export GOFLAGS=-mod=mod GOPROXY=off GOSUMDB=off GOTOOLCHAIN=local
-P=$1; X=$2; W=/tmp/seed/$P; O=$W/out
+P=$1; X=$2; BASE=${3:-/tmp/seed}; SUF=${4:-$X}; W=$BASE/$P; O=$W/out
 [ -f $O/patch_$X.diff ] && [ -f $O/demo_${X}_test.go ] && [ -f $O/meta_$X.json ] || { echo "$P-$X: incomplete deliverable"; exit 1; }
 dir=$(python3 -c "import json;print(json.load(open('$O/meta_$X.json'))['demo_package_dir'].strip('/'))")
 [ -d "$W/$dir" ] || { echo "$P-$X: demo dir $dir missing"; exit 1; }
@@ -20,7 +20,7 @@ org=$(cd $W/$dir && go test -vet=off -count=1 -timeout 300s -run 'Demo|demo' . 2
 rm -f $W/$dir/zz_demo_${X}_test.go
 echo "$chg" | grep -q "^FAIL\|FAIL" || { echo "$P-$X: demo does not fail on the changed code: $chg"; exit 1; }
 echo "$org" | grep -q "^ok" || { echo "$P-$X: demo does not pass on the unchanged code: $org"; exit 1; }
-D=/verif/seeded/$P-$X; mkdir -p $D
+D=/verif/seeded/$P-$SUF; mkdir -p $D
 cp $O/patch_$X.diff $D/patch.diff; cp $O/demo_${X}_test.go $D/demo_test.go
 python3 - <<PY
 import json
@@ -29,4 +29,4 @@ m['property']='$P'
 m['validated']={'compiles':True,'suite_passes':True,'demo_fails_on_changed':True,'demo_passes_on_unchanged':True}
 json.dump(m,open('$D/meta.json','w'),indent=1)
 PY
-echo "$P-$X: imported"
+echo "$P-$SUF: imported"
